@@ -117,10 +117,20 @@ def cases(ctx):
         yield {"curvedsplit": True, "nd": rng.choice([4, 8, 16]), "r": rng.choice([1.0, 2.5]),
                "idx": [rng.randrange(4) for _ in range(2)], "nodes": [rng.choice([0.25, 0.375, 0.7, 1 / 3, 0.6]) for _ in range(2)],
                "rot": rng.randrange(4)}
+    for i in range(ctx.n(10, 120)):
+        # SHAPES whose curved boundary is cut vs uncut, where the cut changes the control polygon's extent: the cap under
+        # a parabola (its control point is the top of the control-point box) and circles of 5..7 arcs; dyadic data, so
+        # that the cut is exact in floats
+        if i % 3 == 2:
+            yield {"capsplit": True, "disk": rng.choice([5, 6, 7]), "t": rng.choice([0.5, 0.25, 0.75]), "seg": rng.randrange(5),
+                   "hole": i % 2 == 0}
+        else:
+            yield {"capsplit": True, "cap": [rng.choice([1, 2, 3]), rng.choice([1, 2, 3, 4])],
+                   "t": rng.choice([0.5, 0.25, 0.75, 0.375, 0.625]), "hole": i % 2 == 0}
 
 
 def nontrivial(case):
-    if case.get("mixed") or case.get("curvedsplit"):
+    if case.get("mixed") or case.get("curvedsplit") or case.get("capsplit"):
         return True
     return case["x"][0] not in "EW" and case["y"][0] not in "EW"
 
@@ -155,6 +165,34 @@ def check(ctx, case):
             fails.append(Fail(kind="O", what="== on mixed-degree vs polygon does not return False", impl=r2))
         if not crossing and r2[0] != "ok":
             fails.append(Fail(kind="O", what="== raised on the result of a nested circle/square operation", impl=r2))
+        return fails
+    if case.get("capsplit"):
+        def mk(cut):
+            if "cap" in case:
+                a, h = float(case["cap"][0]), float(case["cap"][1])
+                J = I.JordanCurve.from_ctrlpoints([[(-a, 0.0), (a, 0.0)], [(a, 0.0), (0.0, 2 * h), (-a, 0.0)]])
+                if cut:
+                    J.split([1], [case["t"]])
+                big = 4 * max(a, h)
+            else:
+                J = I.Primitive.circle(1.0, (0, 0), case["disk"]).jordans[0]
+                if cut:
+                    J.split([case["seg"]], [case["t"]])
+                big = 4.0
+            if case["hole"]:
+                return I.ConnectedShape([I.Primitive.square(2 * big), I.SimpleShape(~J)])
+            return I.SimpleShape(J)
+        S0, S1 = mk(False), mk(True)
+        ctx.count("shape cut-vs-uncut:" + ("cap" if "cap" in case else "disk") + ("-hole" if case["hole"] else ""))
+        if any(sg.degree != 2 for sg in S1.jordans[-1].segments if sg.degree > 1):
+            return fails
+        if float(S0) != float(S1) or float(I.SimpleShape(S0.jordans[-1])) != float(I.SimpleShape(S1.jordans[-1])):
+            ctx.count("shape cut-vs-uncut: float areas differ (F9), not asked")
+            return fails
+        for name, f in (("cut == uncut", lambda: S1 == S0), ("uncut == cut", lambda: S0 == S1), ("not (cut != uncut)", lambda: not (S1 != S0))):
+            r = I.outcome(f)
+            if r != ("ok", True):
+                fails.append(Fail(kind="O", what="shape == depends on how a curved boundary is cut into pieces (equal float areas): %s" % name, impl=r))
         return fails
     if case.get("curvedsplit"):
         S0 = I.Primitive.circle(case["r"], (0, 0), case["nd"])
